@@ -278,8 +278,23 @@ fn scenario(ctx: &Ctx, out: &mut Outcome, rng: &mut Rng, idx: u64) {
         vec![]
     };
     let faults2 = faults.clone();
+    // ... and in a quarter of the scenarios one aimed at a catalog write of the compactor (mostly "applied, but
+    // reported as failed": the publication step's lost response)
+    let aimed: Vec<crate::sim::FaultMatch> = if rng.chance(1, 4) {
+        vec![crate::sim::FaultMatch {
+            actor_prefix: "comp".into(),
+            op: "PUT".into(),
+            path_contains: "catalog.json".into(),
+            nth: rng.below(4),
+            mode: if rng.chance(2, 3) { crate::sim::FaultMode::After } else { crate::sim::FaultMode::Before },
+        }]
+    } else {
+        vec![]
+    };
+    let aimed2 = aimed.clone();
     let plan_json = json!({"backend": if local_backend {"local"} else {"object-store"}, "retention_days": retention_days, "grace_s": grace_s,
         "faults": faults.iter().map(|f| format!("#{} {:?}", f.index, f.mode)).collect::<Vec<_>>(),
+        "aimed_fault": aimed.iter().map(|m| format!("catalog PUT #{} of the compactor {:?}", m.nth, m.mode)).collect::<Vec<_>>(),
         "lost_cas_burst": contention.map(|(f, c)| format!("conditional PUTs #{}..#{}", f, f + c)),
         "chunks": plans.iter().map(|p| format!("{} rows={}", p.0, p.1.len())).collect::<Vec<_>>(), "cycles": ncycles, "query_actors": nqueries, "restart": restart, "operator_removes_a_chunk_before_restart_loop": admin_delete});
     let plans2 = plans.clone();
@@ -349,6 +364,7 @@ fn scenario(ctx: &Ctx, out: &mut Outcome, rng: &mut Rng, idx: u64) {
         ctl.set_contention(contention.map(|(from, count)| crate::sim::Contention { path_contains: ".json".into(), from, count }));
         ctl.reset_counters();
         ctl.set_faults(faults2);
+        ctl.set_match_faults(aimed2);
         ctl.set_gating(true);
         let monitor = Arc::new(ShardMonitor::new(HotShardConfig::default()));
         let comp = Compactor::new(cfg2.clone(), ctl.store("comp"), mk_meta(&ctl, "comp"), storage_config(), monitor.clone()).with_pin_registry(registry.clone());
@@ -501,6 +517,7 @@ fn scenario(ctx: &Ctx, out: &mut Outcome, rng: &mut Rng, idx: u64) {
         ctl.set_gating(false);
         ctl.set_contention(None);
         ctl.set_faults(vec![]);
+        ctl.set_match_faults(vec![]);
         use futures::StreamExt;
         let mut final_objects = BTreeSet::new();
         let mut ls = ctl.backing.list(None);
